@@ -11,7 +11,7 @@ RULE = (
     "(same or other size), touch, delete, re-create (inode reuse happens naturally)} interleaved with queries {raw State.get, "
     "State.get_many vs get at the same instant, hash_file(state) under md5 / sha256 / md5-dos2unix / blake3 on the same paths with "
     "fresh or caller-supplied stat info, _get_hashes, staging a directory with a state-carrying store, index md5(), index "
-    "update(new, old) after mutating between the two builds}; injected rows {legacy without version, version 2, another "
+    "update(new, old) after mutating between the two builds, a query during which another writer rewrites a file right after it was read}; injected rows {legacy without version, version 2, another "
     "algorithm, garbage JSON}; a memfs path equal to a local path string; batches of 998/999/1000/1001/2100 files across the "
     "SQL-parameter boundary with a mutated prefix; tmpfs and ext4 scratch.  Every answer is compared with hashlib on the bytes read "
     "immediately afterwards.  non-trivial = at least one mutation between two queries of the same path; distinct = (event history)"
@@ -21,7 +21,7 @@ ASSUMPTIONS = [
     "single-threaded: the bytes read right after an answer are the bytes the answer was about",
 ]
 MONITORS = "every (meta, hash) obtained through the state cache or carried over by update() compared with hashlib at the same instant"
-REQUIRED_COUNTERS = ["symlinked_files", "answers_checked", "state_hits_checked", "mutations", "get_vs_get_many_compared", "staging_listings_checked", "index_md5_checked",
+REQUIRED_COUNTERS = ["racing_writer_queries", "symlinked_files", "answers_checked", "state_hits_checked", "mutations", "get_vs_get_many_compared", "staging_listings_checked", "index_md5_checked",
                      "index_update_carried_checked", "injected_rows", "memfs_queries", "batch_boundary_cases", "mutations_between_queries", "ext4_cases"]
 
 ALGOS = ["md5", "sha256", "md5-dos2unix", "blake3"]
@@ -116,6 +116,49 @@ def run_shard(ctx):
         seen.add(tok)
         return new
 
+    from dvc_objects.fs.local import LocalFileSystem
+
+    class _CloseHook:
+        """file proxy: runs `hook` right after the reader has closed the file (another process writing at that moment)"""
+
+        def __init__(self, f, hook):
+            self._f, self._hook = f, hook
+
+        def __getattr__(self, n):
+            return getattr(self._f, n)
+
+        def __enter__(self):
+            self._f.__enter__()
+            return self
+
+        def __exit__(self, *a):
+            r = self._f.__exit__(*a)
+            self._fire()
+            return r
+
+        def __iter__(self):
+            return iter(self._f)
+
+        def close(self):
+            self._f.close()
+            self._fire()
+
+        def _fire(self):
+            if self._hook is not None:
+                h, self._hook = self._hook, None
+                h()
+
+    class RacingFS(LocalFileSystem):
+        """a local filesystem on which chosen files are rewritten by 'someone else' just after dvc-data has read them"""
+
+        hooks = {}
+
+        def open(self, path, mode="r", **kwargs):
+            f = super().open(path, mode, **kwargs)
+            if "r" in mode and path in self.hooks:
+                return _CloseHook(f, self.hooks.pop(path))
+            return f
+
     for case, rng in ctx.cases(ctx.plan["n"]):
 
         def one(case=case, rng=rng):
@@ -208,7 +251,7 @@ def run_shard(ctx):
                         else:
                             cur[p] = new
                     continue
-                q = rng.choice(["hash_file", "hash_file", "get", "get_many", "_get_hashes", "build", "index_md5", "index_update", "inject", "memfs"])
+                q = rng.choice(["hash_file", "hash_file", "get", "get_many", "_get_hashes", "build", "index_md5", "index_update", "inject", "memfs", "racing-writer"])
                 if batch and q in ("build", "index_md5", "index_update"):
                     q = "get_many"
                 hist.append(["query", q, ""])
@@ -323,6 +366,45 @@ def run_shard(ctx):
                             res.violation(f"wrong-algorithm-returned/after-{kind}", f"asked {name}, got {h2.name}", case=case)
                         verify(p, name, h2.value, f"hash_file/after-{kind}")
                     note_query([p])
+                elif q == "racing-writer" and paths and not batch:
+                    # a write lands between dvc-data's read of a file and its book-keeping; the answer of that very query may be about
+                    # either state, but nothing recorded then may vouch for the old bytes under the new stat
+                    rfs = RacingFS()
+                    victims = [p for p in rng.sample(paths, min(len(paths), 3)) if not os.path.islink(p) and cur[p]]
+                    res.count("racing_writer_queries")
+
+                    def make(p):
+                        def hook():
+                            cur[p] = mutate(rng, p, cur[p], "same-size")
+                            mcount[p] = mcount.get(p, 0) + 1
+                            res.count("mutations")
+                            hist.append(["mutate", "same-size(racing)", os.path.basename(p)])
+                        return hook
+
+                    # make sure the files are really read (no row may answer for them)
+                    for p in victims:
+                        cur[p] = mutate(rng, p, cur[p], "grow")
+                        mcount[p] = mcount.get(p, 0) + 1
+                        RacingFS.hooks[p] = make(p)
+                    how = rng.choice(["_get_hashes", "build", "hash_file"])
+                    try:
+                        if how == "_get_hashes":
+                            infos = {p: _localfs_info(p) for p in paths}
+                            _get_hashes(list(paths), rfs, "md5", infos, state=state, jobs=1)
+                        elif how == "build":
+                            build(odb, wdir, rfs, "md5", dry_run=True)
+                        else:
+                            for p in victims:
+                                hash_file(p, rfs, "md5", state=state)
+                    finally:
+                        RacingFS.hooks.clear()
+                    for p in paths:
+                        last_q[p] = mcount.get(p, 0) - (1 if p in victims else 0)
+                    # ... and now ask again, quietly
+                    for p in victims:
+                        _m, hi = hash_file(p, fs, "md5", state=state)
+                        verify(p, "md5", hi.value, f"hash_file/after-racing-writer({how})")
+                    note_query(victims)
                 elif q == "memfs" and paths:
                     p = rng.choice(paths)
                     _m, _h = hash_file(p, fs, "md5", state=state)  # make sure a local row exists for this path string
